@@ -443,6 +443,7 @@ RULES = [
     ("X-COLOR", "colouring only on a terminal and only for the name column", lambda ctx: __import__("extra").colorize_gate(ctx)),
     ("X-WBUF", "the formatters' in-memory sink accepts every chunk", lambda ctx: __import__("extra").wbuf_total(ctx)),
     ("X-LITERAL", "a literal is never answered from the text-keyed per-entry memo [shared]", lambda ctx: __import__("extra").literal_before_memo(ctx)),
+    ("X-PIPELINE", "the per-entry pipeline of check_file evaluated on its scenario table (filter, count, row, buffer key, separator, closed output) [shared]", lambda ctx: __import__("cfile").pipeline(ctx)),
 ]
 
 EXPLANATION = (
